@@ -91,12 +91,22 @@ class C12(PropBase):
                         created.append(e)
                 for x in probes:
                     m = {'h': h, 'stage': si, 'sid': x}
+                    if not any(ch in x for ch in '?:'):
+                        mq = dict(m, finders=True)
+                        out.append(Case('finder_exists', ['paths', '', x], 'probe-finders', mq))
+                        out.append(Case('finder_exists', ['all', '', x], 'probe-finders', mq))
+                        out.append(Case('find_paths', ['', x], 'probe-finders', mq))
+                        out.append(Case('find_all', [x], 'probe-finders', mq))
                     out.append(Case('sid_exists', [['s', x]], 'probe', m))
                     out.append(Case('children', [['s', x]], 'probe', m))
                     out.append(Case('siblings', [['s', x]], 'probe', m))
                 for (qa, e) in self_alias:
                     out.append(Case('sid_exists', [['s', qa]], 'probe-alias', {'h': h, 'stage': si, 'sid': qa, 'member': e}))
                     out.append(Case('find_all', [qa], 'probe-alias', {'h': h, 'stage': si, 'sid': qa, 'member': e}))
+                    # the same on the Finders themselves: exists(s) of a FindInPaths / FindInAll object against its own find(s)
+                    for kind in ('paths', 'all'):
+                        out.append(Case('finder_exists', [kind, '', qa], 'probe-alias', {'h': h, 'stage': si, 'sid': qa, 'member': e}))
+                    out.append(Case('find_paths', ['', qa], 'probe-alias', {'h': h, 'stage': si, 'sid': qa, 'member': e}))
                 for qa in unapplied:
                     out.append(Case('sid_exists', [['s', qa]], 'probe-query', {'h': h, 'stage': si, 'sid': qa}))
                     out.append(Case('find_all', [qa], 'probe-query', {'h': h, 'stage': si, 'sid': qa}))
@@ -120,10 +130,15 @@ class C12(PropBase):
         # exists(s) is True exactly when find(s) yields something, also for concrete-looking searches
         pend = {}
         for c, o in zip(cases, impl_out):
-            if c.stream in ('probe-alias', 'probe-query'):
+            if c.stream in ('probe-alias', 'probe-query', 'probe-finders'):
                 key = (c.meta['h'], c.meta['stage'], c.meta['sid'])
-                pend.setdefault(key, {})[c.op] = (c, o)
+                pend.setdefault(key, {})[c.op + (':' + c.args[0] if c.op == 'finder_exists' else '')] = (c, o)
         for key, d in pend.items():
+            for kind, fop in (('paths', 'find_paths'), ('all', 'find_all')):
+                if 'finder_exists:' + kind in d and fop in d:
+                    (ce, oe), (cf, of) = d['finder_exists:' + kind], d[fop]
+                    if oe[0] == 'ok' and of[0] == 'ok' and (oe[1] == '1') != bool(of[1]):
+                        fails_pre.append((ce, oe, '%s finder: exists(%r) is %s but find gives %r (after creating %r)' % (kind, key[2], oe[1], of[1], self.fs_created[(key[0], key[1])])))
             if 'sid_exists' in d and 'find_all' in d:
                 (ce, oe), (cf, of) = d['sid_exists'], d['find_all']
                 if oe[0] == 'ok' and of[0] == 'ok' and (oe[1] == '1') != bool(of[1]):
@@ -226,7 +241,7 @@ class C12(PropBase):
             return [case.meta['h'], case.meta['stage'], case.op, case.args] if impl[0] == 'ok' and impl[1] not in ('0', []) else None
         return case.args if case.op == 'find_list' and impl[0] == 'ok' and impl[1] else None
     def histogram_key(self, case, impl):
-        if case.stream in ('probe', 'create', 'setup', 'probe-alias', 'probe-query'):
+        if case.stream in ('probe', 'create', 'setup', 'probe-alias', 'probe-query', 'probe-finders'):
             return '%s:%s:stage%s:%s' % (case.stream, case.op, case.meta.get('stage'), 'raise' if impl[0] != 'ok' else ('some' if impl[1] not in ('0', []) else 'none'))
         return '%s:%s' % (case.op, 'raise' if impl[0] != 'ok' else (min(len(impl[1]), 3) if isinstance(impl[1], list) else impl[1]))
 
